@@ -474,16 +474,17 @@ Proof.
 Qed.
 
 (** C03-F7, on a value: a lower-case encoded slash (pinned tree only) *)
-Definition guard_F7_val (fx7 : bool) (v : string) : bool := negb fx7 && contains "%2f" v.
+Definition guard_F7b (b7 : bool) (v : string) : bool := negb b7 && contains "%2f" v.
+Definition guard_F7_val (fx7 : dec) (v : string) : bool := guard_F7b (is7 fx7) v.
 
 (** first replacement + PathUnescape, on a validly encoded value (pinned: without a
     lower-case "%2f") *)
-Lemma nd_first_half fx7 v :
-  valid_enc v -> guard_F7_val fx7 v = false ->
+Lemma nd_first_half (fx7 : bool) v :
+  valid_enc v -> guard_F7b fx7 v = false ->
   exists u d, pct_decode (protect fx7 v) = Some u /\
               spec_decode true v = Some d /\ rel u d.
 Proof.
-  unfold valid_enc, guard_F7_val, protect, replace_all.
+  unfold valid_enc, guard_F7b, protect, replace_all.
   induction v as [| c r Hc IH | a b r IH | | a] using pct_ind; intros Hv Hl.
   - exists "", "". destruct fx7; repeat split; constructor.
   - rewrite pct_decode_nonpct in Hv by assumption.
@@ -613,16 +614,17 @@ Proof.
 Qed.
 
 (** C03-F8, on a value: its decoding contains the beginning of the place-holder *)
-Definition guard_F8_val (d : string) : bool := contains "$$$escaped-slash" d.
+Definition guard_F8b (d : string) : bool := contains "$$$escaped-slash" d.
+Definition guard_F8_val (fx7 : dec) (d : string) : bool := negb (is8 fx7) && guard_F8b d.
 
 Lemma replace_hit_marker s :
   replace_aux marker "%2F" 0 (marker ++ s) = "%2F" ++ replace_aux marker "%2F" 0 s.
 Proof. exact (replace_hit "$" "$$escaped-slash$$$" "%2F" s). Qed.
 
 Lemma nd_second_half u d :
-  rel u d -> guard_F8_val d = false -> replace_all u marker "%2F" = d.
+  rel u d -> guard_F8b d = false -> replace_all u marker "%2F" = d.
 Proof.
-  unfold guard_F8_val, replace_all. intro Hr. induction Hr as [|c u d Hr IH|u d Hr IH]; intro Hg.
+  unfold guard_F8b, replace_all. intro Hr. induction Hr as [|c u d Hr IH|u d Hr IH]; intro Hg.
   - reflexivity.
   - rewrite contains_cons in Hg. apply orb_false_iff in Hg as [Hg0 Hg].
     rewrite replace_aux_0.
@@ -633,16 +635,165 @@ Proof.
     rewrite (IH (contains_app_false _ "%2F" _ Hg)). reflexivity.
 Qed.
 
-(** the capture decoding of `off` / `no_decode`: percent-decoded, "%2F" kept *)
-Lemma nd_decode fx7 v d :
-  spec_decode true v = Some d -> guard_F7_val fx7 v = false -> guard_F8_val d = false ->
-  nd_unescape fx7 v = d.
+(** the capture decoding of `off` / `no_decode` with the place-holder: percent-decoded, "%2F" kept *)
+Lemma nd_old_decode (b7 : bool) v d :
+  spec_decode true v = Some d -> guard_F7b b7 v = false -> guard_F8b d = false ->
+  nd_old b7 v = d.
 Proof.
   intros Hd H7 H8.
   assert (Hv : valid_enc v) by (apply (spec_decode_valid true); congruence).
-  destruct (nd_first_half fx7 v Hv H7) as (u & d' & Hu & Hd' & Hr).
+  destruct (nd_first_half b7 v Hv H7) as (u & d' & Hu & Hd' & Hr).
   rewrite Hd in Hd'. inversion Hd'; subst d'.
-  unfold nd_unescape, path_unescape. rewrite Hu. apply nd_second_half; assumption.
+  unfold nd_old, path_unescape. rewrite Hu. apply nd_second_half; assumption.
+Qed.
+
+(* ---- the decoding without place-holder (fixes/C03-F8.diff): cut at the encoded slashes, decode, join *)
+
+Lemma split_on_aux_0 sep c r :
+  split_on_aux sep 0 (String c r) =
+  if prefix sep (String c r) then "" :: split_on_aux sep (slen sep - 1) r
+  else match split_on_aux sep 0 r with
+       | x :: xs => String c x :: xs
+       | [] => [String c ""]
+       end.
+Proof. reflexivity. Qed.
+
+(** lower-case encoded slashes are rewritten to upper case; nothing else changes, and the
+    specified decoding (which writes kept slashes canonically) is the same *)
+Lemma normalise_2f v :
+  valid_enc v ->
+  valid_enc (replace_all v "%2f" "%2F") /\ contains "%2f" (replace_all v "%2f" "%2F") = false /\
+  spec_decode true (replace_all v "%2f" "%2F") = spec_decode true v.
+Proof.
+  unfold valid_enc, replace_all.
+  induction v as [| c r Hc IH | a b r IH | | a] using pct_ind; intro Hv.
+  - repeat split; assumption.
+  - rewrite pct_decode_nonpct in Hv by assumption.
+    destruct (pct_decode r) eqn:Er; [|simpl in Hv; congruence].
+    destruct IH as (I1 & I2 & I3); [congruence|].
+    rewrite replace_aux_0, (prefix_2f_nonpct c r) by assumption.
+    rewrite pct_decode_nonpct, contains_cons, (prefix_2f_nonpct c) by assumption.
+    rewrite !spec_decode_nonpct by assumption. rewrite I3.
+    destruct (pct_decode (replace_aux "%2f" "%2F" 0 r)); [|congruence].
+    repeat split; [simpl; congruence | exact I2].
+  - destruct (hexval a) as [x|] eqn:Ha; [|unfold pct in Hv; simpl in Hv; rewrite Ha in Hv; congruence].
+    destruct (hexval b) as [y|] eqn:Hb; [|unfold pct in Hv; simpl in Hv; rewrite Ha, Hb in Hv; congruence].
+    rewrite (pct_decode_esc _ _ _ _ _ Ha Hb) in Hv.
+    destruct (pct_decode r) eqn:Er; [|simpl in Hv; congruence].
+    destruct IH as (I1 & I2 & I3); [congruence|].
+    assert (Hna := hexval_not_pct _ _ Ha). assert (Hnb := hexval_not_pct _ _ Hb).
+    rewrite replace_aux_0, !prefix_cons, prefix_nil_l, andb_true_r.
+    change (Ascii.eqb "%" pct) with true. rewrite andb_true_l.
+    destruct (Ascii.eqb "2" a && Ascii.eqb "f" b) eqn:E2f.
+    + apply andb_true_iff in E2f as [Ea Eb]. apply Ascii.eqb_eq in Ea, Eb. subst a b.
+      change (slen "%2f" - 1) with 2.
+      change (replace_aux "%2f" "%2F" 2 (String "2" (String "f" r))) with (replace_aux "%2f" "%2F" 0 r).
+      change ("%2F" ++ replace_aux "%2f" "%2F" 0 r)
+        with (String pct (String "2" (String "F" (replace_aux "%2f" "%2F" 0 r)))).
+      assert (HF : hexval "F" = Some 15%N) by reflexivity.
+      rewrite (pct_decode_esc _ _ _ _ _ Ha HF), !contains_cons, !prefix_cons.
+      rewrite (spec_decode_esc _ _ _ _ _ _ Ha HF), (spec_decode_esc _ _ _ _ _ _ Ha Hb), I3.
+      vm_compute in Ha. vm_compute in Hb. inversion Ha; inversion Hb; subst x y.
+      destruct (pct_decode (replace_aux "%2f" "%2F" 0 r)); [|congruence].
+      split; [simpl; congruence|]. split; [|reflexivity].
+      change (Ascii.eqb "%" "2") with false. change (Ascii.eqb "%" "F") with false.
+      change (Ascii.eqb "F" "f") with false. rewrite !andb_false_r, !andb_false_l. exact I2.
+    + rewrite replace_aux_0, (prefix_2f_nonpct a) by assumption.
+      rewrite replace_aux_0, (prefix_2f_nonpct b) by assumption.
+      rewrite (pct_decode_esc _ _ _ _ _ Ha Hb), !contains_cons, (prefix_2f_nonpct a), (prefix_2f_nonpct b) by assumption.
+      rewrite !(spec_decode_esc _ _ _ _ _ _ Ha Hb), I3.
+      rewrite !prefix_cons, prefix_nil_l, andb_true_r. change (Ascii.eqb "%" pct) with true. rewrite andb_true_l, E2f.
+      destruct (pct_decode (replace_aux "%2f" "%2F" 0 r)); [|congruence].
+      repeat split; [simpl; congruence | exact I2].
+  - exfalso. apply Hv. reflexivity.
+  - exfalso. apply Hv. reflexivity.
+Qed.
+
+Lemma decode_parts_cons x r :
+  decode_parts (x :: r) = match pct_decode x, decode_parts r with
+                          | Some d, Some ds => Some (d :: ds)
+                          | _, _ => None
+                          end.
+Proof. reflexivity. Qed.
+
+Lemma join_cons_char c x xs : join_with "%2F" (String c x :: xs) = String c (join_with "%2F" (x :: xs)).
+Proof. destruct xs; reflexivity. Qed.
+
+(** cutting at "%2F", decoding the pieces and joining them is the specified decoding *)
+Lemma split_decode w :
+  valid_enc w -> contains "%2f" w = false ->
+  exists x xs dx dxs, split_on "%2F" w = x :: xs /\ decode_parts (x :: xs) = Some (dx :: dxs) /\
+                      spec_decode true w = Some (join_with "%2F" (dx :: dxs)).
+Proof.
+  unfold valid_enc, split_on.
+  induction w as [| c r Hc IH | a b r IH | | a] using pct_ind; intros Hv Hl.
+  - exists "", [], "", []. repeat split.
+  - rewrite pct_decode_nonpct in Hv by assumption.
+    rewrite contains_cons in Hl. apply orb_false_iff in Hl as [_ Hl].
+    destruct (pct_decode r) eqn:Er; [|simpl in Hv; congruence].
+    destruct IH as (x & xs & dx & dxs & Hs & Hd & Hsp); [congruence | assumption |].
+    rewrite split_on_aux_0, (prefix_2F_nonpct c r) by assumption. rewrite Hs.
+    exists (String c x), xs, (String c dx), dxs.
+    split; [reflexivity|]. split.
+    + rewrite decode_parts_cons in Hd |- *. rewrite pct_decode_nonpct by assumption.
+      destruct (pct_decode x); [|discriminate]. destruct (decode_parts xs); [|discriminate].
+      inversion Hd; subst. reflexivity.
+    + rewrite spec_decode_nonpct by assumption. rewrite Hsp, join_cons_char. reflexivity.
+  - destruct (hexval a) as [xa|] eqn:Ha; [|unfold pct in Hv; simpl in Hv; rewrite Ha in Hv; congruence].
+    destruct (hexval b) as [yb|] eqn:Hb; [|unfold pct in Hv; simpl in Hv; rewrite Ha, Hb in Hv; congruence].
+    rewrite (pct_decode_esc _ _ _ _ _ Ha Hb) in Hv.
+    rewrite contains_cons in Hl. apply orb_false_iff in Hl as [Hl0 Hl].
+    rewrite !contains_cons in Hl. apply orb_false_iff in Hl as [_ Hl]. apply orb_false_iff in Hl as [_ Hl].
+    destruct (pct_decode r) eqn:Er; [|simpl in Hv; congruence].
+    destruct IH as (x & xs & dx & dxs & Hs & Hd & Hsp); [congruence | assumption |].
+    assert (Hna := hexval_not_pct _ _ Ha). assert (Hnb := hexval_not_pct _ _ Hb).
+    rewrite (spec_decode_esc _ _ _ _ _ _ Ha Hb), Hsp. cbn [option_map].
+    rewrite split_on_aux_0, !prefix_cons, prefix_nil_l, andb_true_r.
+    change (Ascii.eqb "%" pct) with true. rewrite andb_true_l.
+    destruct (Ascii.eqb "2" a && Ascii.eqb "F" b) eqn:E2F.
+    + apply andb_true_iff in E2F as [Ea Eb]. apply Ascii.eqb_eq in Ea, Eb. subst a b.
+      change (slen "%2F" - 1) with 2.
+      change (split_on_aux "%2F" 2 (String "2" (String "F" r))) with (split_on_aux "%2F" 0 r).
+      rewrite Hs. vm_compute in Ha. vm_compute in Hb. inversion Ha; inversion Hb; subst xa yb.
+      exists "", (x :: xs), "", (dx :: dxs). split; [reflexivity|]. split.
+      * rewrite decode_parts_cons, Hd. reflexivity.
+      * reflexivity.
+    + assert (Hns : Ascii.eqb (ascii_of_N (16 * xa + yb)) "/" = false).
+      { apply Ascii.eqb_neq. intro E. destruct (slash_escape _ _ _ _ Ha Hb E) as [-> [-> | ->]].
+        - discriminate.
+        - rewrite !prefix_cons, prefix_nil_l in Hl0. discriminate. }
+      rewrite Hns, andb_false_r.
+      rewrite split_on_aux_0, (prefix_2F_nonpct a) by assumption.
+      rewrite split_on_aux_0, (prefix_2F_nonpct b) by assumption. rewrite Hs.
+      exists (String pct (String a (String b x))), xs, (String (ascii_of_N (16 * xa + yb)) dx), dxs.
+      split; [reflexivity|]. split.
+      * rewrite decode_parts_cons in Hd. destruct (pct_decode x) eqn:Ex; [|discriminate].
+        destruct (decode_parts xs) eqn:Exs; [|discriminate]. inversion Hd; subst.
+        rewrite decode_parts_cons, (pct_decode_esc _ _ _ _ _ Ha Hb), Ex, Exs. reflexivity.
+      * rewrite join_cons_char. reflexivity.
+  - exfalso. apply Hv. reflexivity.
+  - exfalso. apply Hv. reflexivity.
+Qed.
+
+Lemma nd_split_decode v d : spec_decode true v = Some d -> nd_split v = d.
+Proof.
+  intro Hd.
+  assert (Hv : valid_enc v) by (apply (spec_decode_valid true); congruence).
+  destruct (normalise_2f v Hv) as (N1 & N2 & N3).
+  destruct (split_decode _ N1 N2) as (x & xs & dx & dxs & Hs & Hdp & Hsp).
+  unfold nd_split. rewrite Hs, Hdp. rewrite N3, Hd in Hsp. inversion Hsp. reflexivity.
+Qed.
+
+(** C03-F7 / F8 on a value, per variant of the decoder *)
+Lemma nd_decode fx7 v d :
+  spec_decode true v = Some d -> guard_F7_val fx7 v = false -> guard_F8_val fx7 d = false ->
+  nd_unescape fx7 v = d.
+Proof.
+  intros Hd H7 H8. unfold nd_unescape, guard_F7_val, guard_F8_val in *.
+  destruct fx7; cbn [is7 is8 negb andb] in *.
+  - apply nd_old_decode; assumption.
+  - apply nd_old_decode; assumption.
+  - apply nd_split_decode; assumption.
 Qed.
 
 (* ------------------------------------------------------------------ path_params *)
